@@ -1451,6 +1451,97 @@ func runC17(c *Ctx) {
 				}
 			}
 		}
+		// (D) one TYPED root shared by all goroutines (nobody is meant to write to it): ExpandSchema of its definitions
+		// and of references to schemas held by pointer inside it (the schema of a response or of a body parameter)
+		{
+			var w *refgraph.World
+			var targets []wire.V
+			for try := 0; try < 50; try++ {
+				w = refgraph.Generate(c.Rng, refgraph.Options{Docs: 1, Defs: 4, Elements: true, Cycles: r%2 == 0, RefP: 0.7})
+				if len(w.BuildGraph().Missing) > 0 {
+					continue
+				}
+				targets = nil
+				root := w.Docs[w.Root]
+				for _, sec := range []string{"responses", "parameters"} {
+					if sv, ok := root.Get(sec); ok && sv.Kind == wire.Obj {
+						for _, m := range sv.O {
+							if sch, ok := m.V.Get("schema"); ok && sch.Kind == wire.Obj {
+								frag := (&url.URL{Fragment: "/" + sec + "/" + refgraph.PtrEscape(m.K) + "/schema"}).EscapedFragment()
+								targets = append(targets, wire.ObjV(wire.M("$ref", wire.StrV("#"+frag))))
+							}
+						}
+					}
+				}
+				if dv, ok := root.Get("definitions"); ok {
+					for _, m := range dv.O {
+						targets = append(targets, m.V)
+					}
+				}
+				if len(targets) >= 3 {
+					break
+				}
+			}
+			expandOne := func(root *spec.Swagger, t wire.V) (string, string) {
+				var s spec.Schema
+				if err := json.Unmarshal([]byte(t.Text()), &s); err != nil {
+					return "", err.Error()
+				}
+				var err error
+				pan := safely(func() { err = spec.ExpandSchema(&s, root, nil) })
+				if pan != "" {
+					return "", "panic: " + pan
+				}
+				if err != nil {
+					return "", err.Error()
+				}
+				b, _ := json.Marshal(&s)
+				return string(b), ""
+			}
+			cyclic := w.BuildGraph().Cyclic()
+			alone := make([][2]string, len(targets))
+			for i, t := range targets {
+				own, _ := decodeSwagger(w.Docs[w.Root])
+				o, e := expandOne(own, t)
+				alone[i] = [2]string{o, e}
+			}
+			shared, _ := decodeSwagger(w.Docs[w.Root])
+			before, _ := json.Marshal(shared)
+			bad := make([]string, n)
+			var wg sync.WaitGroup
+			_, hang := timed(90*time.Second, func() {
+				for i := 0; i < n; i++ {
+					wg.Add(1)
+					go func(i int) {
+						defer wg.Done()
+						for k := 0; k < 6; k++ {
+							j := (i + k) % len(targets)
+							o, e := expandOne(shared, targets[j])
+							if !cyclic && (o != alone[j][0] || e != alone[j][1]) {
+								bad[i] = fmt.Sprintf("%s: alone %s %s, here %s %s", targets[j].Text(), clip(alone[j][0]), alone[j][1], clip(o), e)
+							}
+						}
+					}(i)
+				}
+				wg.Wait()
+			})
+			after, _ := json.Marshal(shared)
+			c.Count(fmt.Sprint("D", worldJSON(w), n), true)
+			c.Hit("scenario:shared-typed-root")
+			cs := map[string]interface{}{"world": worldJSON(w), "goroutines": n, "scenario": "ExpandSchema calls sharing one typed root", "targets": len(targets)}
+			if hang {
+				c.Fail(Failure{Kind: "crash", Sig: "C17:deadlock", What: "concurrent ExpandSchema calls sharing a typed root did not finish within 90 s", Case: cs})
+			}
+			if string(before) != string(after) {
+				c.Fail(Failure{Kind: "oracle", Sig: "C17:shared-root-modified", What: "the typed root document shared by the calls (which nobody writes to) encodes differently after them", Case: cs, Impl: clip(string(after)), Model: clip(string(before))})
+			}
+			for _, b := range bad {
+				if b != "" {
+					c.Fail(Failure{Kind: "oracle", Sig: "C17:concurrent-result-differs", What: "an ExpandSchema call sharing a typed root with concurrent calls differs from its result alone: " + b, Case: cs})
+					break
+				}
+			}
+		}
 		// (C) shared immutable document: encoders and pointer lookups
 		{
 			w := refgraph.Generate(c.Rng, refgraph.Options{Docs: 1, Defs: 4, Elements: true, RefP: 0.4})
